@@ -1400,3 +1400,445 @@ Proof.
 Qed.
 
 End NoPanic.
+
+(** C19 (runtime half): no index, [unwrap] or subtraction of the model fails on tables that
+    pass [tables_ok], for tokens that have a name in [TERMINAL_NAMES].
+
+    Full statement aimed at (recovery enabled, the transcribed recovery functions):
+      forall fuel tb opts toks site, tables_ok tb = true ->
+        forallb (fun t => t <? tb_nterms tb) toks = true -> ll_run fuel tb opts toks <> Panic site.
+    Proved: the statement for every oracle that satisfies [oracle_ok] (all of them if recovery is
+    disabled).  Missing for the full statement: [oracle_ok faithful_oracle tb], i.e. that the
+    transcription of [restore_terminal_strings]/[minimal_token_difference]/[adjust_token_stream]
+    never runs out of its fuel, always finds an edge label, and only produces named tokens. *)
+Theorem ll_no_panic_any_oracle : forall orc fuel tb opts toks site,
+  tables_ok tb = true -> o_recovery opts = false \/ oracle_ok orc tb ->
+  forallb (fun t => (t <? tb_nterms tb)%N) toks = true ->
+  ll_run_with orc fuel tb opts toks <> Panic site.
+Proof.
+  intros orc fuel tb opts toks site Hok Hrec Hn H. apply tables_ok_split in Hok as [H1 H2].
+  eapply (run_with_no_panic orc tb opts toks H1); [|exact Hn|exact H].
+  destruct Hrec as [Hr|Hr]; [left; exact Hr|right; split; assumption].
+Qed.
+
+Theorem ll_no_panic_partial : forall fuel tb opts toks site,
+  tables_ok tb = true -> o_recovery opts = false ->
+  forallb (fun t => (t <? tb_nterms tb)%N) toks = true ->
+  ll_run fuel tb opts toks <> Panic site.
+Proof.
+  intros fuel tb opts toks site Hok Hr Hn. apply ll_no_panic_any_oracle; auto.
+Qed.
+
+(** A token type without a name does make the model (and the Rust) panic in an error path. *)
+Example unnamed_token_panics :
+  ll_run 100 ex_tables ex_opts [5; 12; 6]%N = Panic SITE_BUILD_ERROR_NAME.
+Proof. vm_compute. reflexivity. Qed.
+
+(** ** Fuel *)
+Lemma ll_loop_mono orc tb opts fuel : forall c extra,
+  ll_loop orc tb opts fuel c <> OutOfFuel ->
+  ll_loop orc tb opts (fuel + extra) c = ll_loop orc tb opts fuel c.
+Proof.
+  induction fuel as [|fuel IH]; intros c extra H; [cbn in H; congruence|].
+  cbn [ll_loop Nat.add] in *. destruct (input_accepted (c_stack c)); [reflexivity|].
+  destruct (ll_step orc tb opts c); try reflexivity. apply IH. exact H.
+Qed.
+
+(** More fuel never changes a result other than [OutOfFuel]. *)
+Theorem ll_run_fuel_mono : forall fuel extra tb opts toks,
+  ll_run fuel tb opts toks <> OutOfFuel ->
+  ll_run (fuel + extra) tb opts toks = ll_run fuel tb opts toks.
+Proof.
+  intros fuel extra tb opts toks H. unfold ll_run, ll_run_with in *.
+  destruct (forallb significant toks); [|reflexivity]. unfold ll_run_located in *.
+  destruct (ll_init _ _ _ _); try reflexivity. apply ll_loop_mono. exact H.
+Qed.
+
+(** ** Completeness *)
+
+(** [lsf g w alpha]: the start symbol derives [w alpha] by a leftmost derivation in which
+    exactly the terminals [w] have been matched. *)
+Inductive lsf (g : cfg) : list N -> list sym -> Prop :=
+| lsf_start : lsf g [] [NT (start g)]
+| lsf_T w t al : lsf g w (T t :: al) -> lsf g (w ++ [t]) al
+| lsf_NT w a al p : lsf g w (NT a :: al) -> In p (prods g) -> lhs p = a -> lsf g w (rhs p ++ al).
+
+(** Exactness of the lookahead automata, as far as completeness needs it: in every
+    left-sentential context [w . A beta], if production [pr] of [A] continues a derivation of the
+    remaining input [rem], then the automaton of [A] predicts (a number of) that production on the
+    look-ahead buffer [rem] padded with end-of-input tokens.  (Strong-LL(k) exactness, "the
+    automaton answers p on every string of FIRST_k(rhs p) . FOLLOW_k(lhs p)", implies it.) *)
+Definition la_exact (tb : ll_tables) : Prop :=
+  forall w a beta d p pr rem,
+    lsf (grammar_of tb) w (NT a :: beta) ->
+    dfa_at tb a = Some d -> prod_at tb p = Some pr -> p_lhs pr = a ->
+    derives (grammar_of tb) (rev (p_rev pr) ++ beta) rem -> ~ In 0%N rem ->
+    exists q prq,
+      eval d (firstn (stream_k tb) (rem ++ repeat 0%N (stream_k tb))) = Predict (Z.of_N q) /\
+      prod_at tb q = Some prq /\ cfg_prod prq = cfg_prod pr.
+
+Section Complete.
+Variable orc : oracle.
+Variable tb : ll_tables.
+Variable opts : options.
+Variable toks : list N.
+Hypothesis Hok : tables_ok_basic tb = true.
+Hypothesis Hmax : o_max_depth opts = None.
+Hypothesis Hla : la_exact tb.
+
+Let g := grammar_of tb.
+
+Definition stream_at (s : stream) (rem : list N) : Prop :=
+  exists j, stream_rel s rem j /\ length (s_buf s) = stream_k tb.
+
+Lemma stream_at_head s t rem : stream_at s (t :: rem) -> exists l b, s_buf s = (t, l) :: b.
+Proof.
+  intros (j & [E _] & L). pose proof (stream_k_pos tb) as Hk.
+  destruct (s_buf s) as [|[t' l] b]; [cbn [length] in L; lia|].
+  cbn [map fst app] in E. inversion E; subst. eauto.
+Qed.
+
+Lemma stream_at_consume s t l b rem :
+  stream_at s (t :: rem) -> s_buf s = (t, l) :: b -> stream_at (ensure tb (set_buf s b)) rem.
+Proof.
+  intros (j & [E Hj] & L) Eb. rewrite Eb in E. cbn [map fst app] in E. inversion E as [E'].
+  assert (Hrel : stream_rel (set_buf s b) rem j) by (split; [exact E'|exact Hj]).
+  destruct (ensure_rel tb _ _ _ Hrel) as (j' & Hrel' & L').
+  { cbn [set_buf s_buf]. rewrite Eb in L. cbn [length] in L. lia. }
+  exists j'. split; assumption.
+Qed.
+
+Lemma firstn_repeat {A} (x : A) : forall n m, firstn n (repeat x m) = repeat x (Nat.min n m).
+Proof.
+  induction n as [|n IH]; intros m; [reflexivity|]. destruct m as [|m]; [reflexivity|].
+  cbn [repeat firstn Nat.min]. rewrite IH. reflexivity.
+Qed.
+
+Lemma stream_at_buf s rem : stream_at s rem ->
+  map fst (s_buf s) = firstn (stream_k tb) (rem ++ repeat 0%N (stream_k tb)).
+Proof.
+  intros (j & [E Hj] & L). set (k := stream_k tb) in *.
+  assert (Lm : length (map fst (s_buf s)) = k) by (rewrite map_length; exact L).
+  destruct (s_rest s) as [|x rest] eqn:Er.
+  - cbn [map] in E. rewrite app_nil_r in E. rewrite E in Lm. rewrite app_length, repeat_length in Lm.
+    rewrite E. rewrite firstn_app, firstn_repeat.
+    rewrite (firstn_all2 (n := k) rem) by lia.
+    f_equal. f_equal. lia.
+  - rewrite Hj in E by discriminate. cbn [repeat] in E. rewrite app_nil_r in E. rewrite <- E.
+    rewrite <- app_assoc. rewrite firstn_app. rewrite Lm, Nat.sub_diag. cbn [firstn].
+    rewrite app_nil_r. rewrite <- Lm. symmetry. apply firstn_all.
+Qed.
+
+Lemma stream_at_ensure s rem : stream_at s rem -> ensure tb s = s.
+Proof. intros (j & _ & L). apply ensure_id. lia. Qed.
+
+Lemma eval_depth0 d b1 b2 : depth d = 0 -> eval d b1 = eval d b2.
+Proof. intros H. unfold eval. rewrite H. reflexivity. Qed.
+
+Lemma predict_exact a d s rem q :
+  dfa_ok tb a d = true -> stream_at s rem ->
+  eval d (firstn (stream_k tb) (rem ++ repeat 0%N (stream_k tb))) = Predict (Z.of_N q) ->
+  predict tb d s = (POk q, s).
+Proof.
+  intros Hd Hs He. unfold predict.
+  assert (Hk : depth d <= stream_k tb).
+  { unfold dfa_ok in Hd. repeat (apply andb_prop in Hd as [Hd ?]).
+    match goal with Hx : (depth d <=? _) = true |- _ => apply Nat.leb_le in Hx; exact Hx end. }
+  destruct (Nat.ltb_spec (stream_k tb) (depth d)) as [L|L]; [lia|].
+  assert (Hc : conv_eval (Predict (Z.of_N q)) = POk q).
+  { cbn [conv_eval]. unfold valid, INVALID_PROD.
+    destruct (Z.ltb_spec (-1) (Z.of_N q)) as [_|Hlt]; [rewrite N2Z.id; reflexivity|lia]. }
+  destruct (depth d) as [|k] eqn:Ed.
+  - rewrite (eval_depth0 d [] (firstn (stream_k tb) (rem ++ repeat 0%N (stream_k tb))) Ed), He, Hc. reflexivity.
+  - rewrite (stream_at_ensure _ _ Hs), (stream_at_buf _ _ Hs), He, Hc. reflexivity.
+Qed.
+
+(** Grammar symbols still on the parser stack. *)
+Definition flat (st : list pitem) : list sym :=
+  flat_map (fun i => match i with PT t => [T t] | PN a => [NT a] | PE _ => [] end) st.
+
+Lemma flat_items al st : flat (map item_of al ++ st) = al ++ flat st.
+Proof.
+  induction al as [|[t|a] al IH]; cbn [map item_of app flat flat_map]; [reflexivity| |];
+    fold (flat (map item_of al ++ st)); rewrite IH; reflexivity.
+Qed.
+
+Lemma marker_not_accepted st p : In (PE p) st -> input_accepted st = false.
+Proof.
+  destruct st as [|[t|a|q] st]; cbn [input_accepted]; intros H; [destruct H| | |]; try reflexivity.
+  destruct H as [H|H]; [discriminate|]. destruct t; [|reflexivity]. destruct st; [destruct H|reflexivity].
+Qed.
+
+Lemma Inv_top st c : Inv tb opts toks c -> c_stack c = st ->
+  match st with
+  | PN a :: _ => exists d, dfa_at tb a = Some d
+  | PE p :: st' =>
+      exists c', ll_step orc tb opts c = Continue c' /\ c_stack c' = st' /\
+                 c_errs c' = c_errs c /\ c_stream c' = c_stream c
+  | _ => True
+  end.
+Proof.
+  intros (fs & Hne & Hw & Hst & Hpts & Hev & Hd & Hcl) Est.
+  destruct fs as [|f outer]; [congruence|]. clear Hne.
+  cbn [fwf hole_syms app] in Hw. destruct Hw as (Hp & Hr & Hdone & Hw).
+  cbn [stack_of] in Hst. cbn [pts_of] in Hpts. cbn [depth_of] in Hd.
+  destruct f as [p pr done pending]. cbn [f_p f_pr f_done f_pending] in *.
+  rewrite Hst in Est. subst st.
+  destruct pending as [|[t|a] pend]; cbn [map item_of app].
+  - unfold ll_step. rewrite Hst. cbn [map app]. unfold end_production. rewrite Hp, Hd.
+    rewrite app_nil_r in Hr.
+    assert (Hlen : length (p_rev pr) = length (rev (map root_sym done))).
+    { rewrite <- (rev_length (p_rev pr)), Hr, rev_length. reflexivity. }
+    rewrite Hpts, Hlen, split_rev_spec.
+    destruct (p_push pr); [eexists; split; [reflexivity|cbn; auto]|].
+    destruct (N.eqb_spec (1 + depth_of outer) 0) as [E|E]; [lia|].
+    eexists; split; [reflexivity|cbn; auto].
+  - exact I.
+  - assert (Hso : sym_ok tb (NT a) = true).
+    { eapply (pending_sym_ok tb Hok p pr (map root_sym done) [] pend (NT a) Hp). exact Hr. }
+    cbn [sym_ok] in Hso. apply andb_prop in Hso as [Ha1 _]. apply Nat.ltb_lt in Ha1.
+    unfold dfa_at. destruct (nth_error (tb_automata tb) (N.to_nat a)) as [d|] eqn:E; [eauto|].
+    apply nth_error_None in E. lia.
+Qed.
+
+Lemma step_inv_nonempty c c' : Inv tb opts toks c -> ll_step orc tb opts c = Continue c' ->
+  c_stack c' <> [] -> Inv tb opts toks c'.
+Proof.
+  intros HI Hs Hne. destruct (step_inv orc tb opts toks Hok c c' HI Hs) as [H|(t & Hst & _)]; [exact H|congruence].
+Qed.
+
+Lemma prod_of_grammar p : In p (prods g) -> exists q pr, prod_at tb q = Some pr /\ cfg_prod pr = p.
+Proof.
+  unfold g, grammar_of. cbn [prods]. intros H. apply in_map_iff in H as (pr & E & Hin).
+  apply In_nth_error in Hin as (n & Hn). exists (N.of_nat n), pr. unfold prod_at.
+  rewrite Nat2N.id. auto.
+Qed.
+
+(** The parser follows any derivation of the remaining input from the stack. *)
+Lemma run_derivation al u : derives g al u ->
+  forall c st' w v pm,
+    Inv tb opts toks c -> c_errs c = [] -> c_stack c = map item_of al ++ st' -> In (PE pm) st' ->
+    stream_at (c_stream c) (u ++ v) -> ~ In 0%N (u ++ v) ->
+    lsf g w (al ++ flat st') -> derives g (flat st') v ->
+    exists n c',
+      (forall fuel, ll_loop orc tb opts (n + fuel) c = ll_loop orc tb opts fuel c') /\
+      Inv tb opts toks c' /\ c_errs c' = [] /\ c_stack c' = st' /\
+      stream_at (c_stream c') v /\ lsf g (w ++ u) (flat st').
+Proof.
+  induction 1 as [|t al u Hd IH|a p al u1 v1 Hin Hl Hd1 IH1 Hd2 IH2];
+    intros c st' w v pm HI He Hst Hpm Hs Hnz Hlsf Hdv.
+  - exists 0, c. cbn [map app] in Hst. rewrite app_nil_r. repeat split; auto.
+  - (* a terminal *)
+    cbn [map item_of app] in Hst, Hs, Hnz, Hlsf.
+    destruct (stream_at_head _ _ _ Hs) as (l & b & Eb).
+    assert (Hstep : ll_step orc tb opts c =
+                    Continue (mkConfig (map item_of al ++ st') (ensure tb (set_buf (c_stream c) b))
+                                (T t :: c_pts c) (c_acts c)
+                                (if o_trim opts then c_evs c else Tok t :: c_evs c) (c_errs c) (c_depth c))).
+    { unfold ll_step. rewrite Hst. rewrite (stream_at_ensure _ _ Hs), Eb. cbn [fst].
+      rewrite N.eqb_refl. unfold consume. rewrite (stream_at_ensure _ _ Hs), Eb. reflexivity. }
+    match type of Hstep with _ = Continue ?x => set (c1 := x) in * end.
+    assert (HI1 : Inv tb opts toks c1).
+    { eapply step_inv_nonempty; [exact HI|exact Hstep|]. cbn [c1 c_stack].
+      intros E. apply app_eq_nil in E as [_ E]. subst st'. destruct Hpm. }
+    destruct (IH c1 st' (w ++ [t]) v pm HI1 He eq_refl Hpm) as (n & c' & Hloop & HI' & He' & Hst' & Hs' & Hlsf').
+    + cbn [c1 c_stream]. eapply stream_at_consume; eassumption.
+    + intros Hin. apply Hnz. right. exact Hin.
+    + apply lsf_T. exact Hlsf.
+    + exact Hdv.
+    + exists (S n), c'. split.
+      * intros fuel. cbn [Nat.add ll_loop]. rewrite Hst. cbn [input_accepted].
+        replace (match t with 0%N => match map item_of al ++ st' with [] => true | _ :: _ => false end
+                            | N.pos _ => false end) with false.
+        -- rewrite Hstep. apply Hloop.
+        -- destruct t; [|reflexivity]. destruct (map item_of al ++ st') eqn:E; [|reflexivity].
+           apply app_eq_nil in E as [_ E]. subst st'. destruct Hpm.
+      * rewrite <- app_assoc in Hlsf'. auto.
+  - (* a non-terminal *)
+    cbn [map item_of app] in Hst, Hlsf. rewrite <- app_assoc in Hs, Hnz.
+    destruct (Inv_top _ c HI Hst) as (d & Ed).
+    pose proof (dfa_at_ok tb Hok _ _ Ed) as Hdok.
+    destruct (prod_of_grammar p Hin) as (q0 & pr0 & Hq0 & Epr0).
+    assert (Hl0 : p_lhs pr0 = a) by (rewrite <- Hl, <- Epr0; reflexivity).
+    assert (Hr0 : rev (p_rev pr0) = rhs p) by (rewrite <- Epr0; reflexivity).
+    destruct (Hla w a (al ++ flat st') d q0 pr0 (u1 ++ v1 ++ v) Hlsf Ed Hq0 Hl0) as (q & prq & Hev & Hq & Eprq).
+    { rewrite Hr0. apply derives_app; [exact Hd1|]. apply derives_app; assumption. }
+    { exact Hnz. }
+    assert (Hrq : rev (p_rev prq) = rhs p) by (rewrite <- Hr0; inversion Eprq; reflexivity).
+    assert (Hlq : p_lhs prq = a) by (rewrite <- Hl0; inversion Eprq; reflexivity).
+    pose proof (predict_exact a d (c_stream c) _ q Hdok Hs Hev) as Hpred.
+    pose proof (prod_at_ok tb Hok _ _ Hq) as Hpo. unfold production_ok in Hpo.
+    apply andb_prop in Hpo as [Hpo _]. apply andb_prop in Hpo as [_ Hnn].
+    set (st1 := PE q :: map item_of al ++ st').
+    assert (Hstep : exists c1, ll_step orc tb opts c = Continue c1 /\
+                      c_stack c1 = map item_of (rhs p) ++ st1 /\ c_errs c1 = [] /\
+                      c_stream c1 = c_stream c).
+    { unfold ll_step. rewrite Hst, Ed, Hpred. unfold push_production. rewrite Hq, Hnn, Hmax. cbn [negb].
+      eexists. split; [reflexivity|]. cbn [c_stack c_errs c_stream set_stack set_stream].
+      rewrite push_items_spec, <- map_rev, Hrq. auto. }
+    destruct Hstep as (c1 & Hstep & Hst1 & He1 & Hs1).
+    assert (HI1 : Inv tb opts toks c1).
+    { eapply step_inv_nonempty; [exact HI|exact Hstep|]. rewrite Hst1. unfold st1.
+      intros E. apply app_eq_nil in E as [_ E]. discriminate. }
+    destruct (IH1 c1 st1 w (v1 ++ v) q HI1 He1 Hst1) as (n1 & c2 & Hloop1 & HI2 & He2 & Hst2 & Hs2 & Hlsf2).
+    + left. reflexivity.
+    + rewrite Hs1. exact Hs.
+    + exact Hnz.
+    + unfold st1. cbn [flat flat_map app]. fold (flat (map item_of al ++ st')). rewrite flat_items.
+      eapply lsf_NT; eassumption.
+    + unfold st1. cbn [flat flat_map app]. fold (flat (map item_of al ++ st')). rewrite flat_items.
+      apply derives_app; assumption.
+    + (* the end-of-production marker *)
+      destruct (Inv_top _ c2 HI2 Hst2) as (c3 & Hstep3 & Hst3 & He3 & Hs3).
+      assert (HI3 : Inv tb opts toks c3).
+      { eapply step_inv_nonempty; [exact HI2|exact Hstep3|]. rewrite Hst3.
+        intros E. apply app_eq_nil in E as [_ E]. subst st'. destruct Hpm. }
+      destruct (IH2 c3 st' (w ++ u1) v pm HI3) as (n2 & c' & Hloop2 & HI' & He' & Hst' & Hs' & Hlsf').
+      * rewrite He3. exact He2.
+      * exact Hst3.
+      * exact Hpm.
+      * rewrite Hs3. exact Hs2.
+      * intros Hi. apply Hnz. apply in_or_app. right. exact Hi.
+      * unfold st1 in Hlsf2. cbn [flat flat_map app] in Hlsf2.
+        fold (flat (map item_of al ++ st')) in Hlsf2. rewrite flat_items in Hlsf2. exact Hlsf2.
+      * exact Hdv.
+      * exists (S (n1 + S n2)), c'. split.
+        -- intros fuel. cbn [Nat.add ll_loop]. rewrite Hst. cbn [input_accepted]. rewrite Hstep.
+           rewrite <- Nat.add_assoc. rewrite Hloop1. cbn [Nat.add ll_loop].
+           rewrite Hst2. cbn [input_accepted]. rewrite Hstep3. apply Hloop2.
+        -- rewrite <- app_assoc in Hlsf'. auto.
+Qed.
+
+Lemma stream_at_nil_consumed s : stream_at s [] -> all_input_consumed s = true.
+Proof.
+  intros Hs. pose proof (stream_at_buf _ _ Hs) as Hb. cbn [app] in Hb.
+  rewrite firstn_repeat, Nat.min_id in Hb. unfold all_input_consumed.
+  destruct (s_buf s) as [|x b]; [reflexivity|].
+  pose proof (stream_k_pos tb) as Hk. destruct (stream_k tb) as [|k]; [lia|].
+  cbn [map repeat] in Hb. injection Hb as Hx _. rewrite Hx. reflexivity.
+Qed.
+
+Theorem run_with_complete :
+  forallb significant toks = true -> lang g toks ->
+  exists fuel acts evs, ll_run_with orc fuel tb opts toks = Accepted acts evs.
+Proof.
+  intros Hsig Hlang. unfold ll_run_with. rewrite Hsig. unfold ll_run_located.
+  pose proof (significant_nonzero _ Hsig) as Hnz.
+  set (s0 := init_stream tb (locate toks LOC_FIRST) LOC_END).
+  pose proof (init_stream_ok tb toks LOC_END) as Hs0. fold s0 in Hs0.
+  assert (Hat0 : stream_at s0 toks).
+  { destruct Hs0 as (rem & j & E & Hr & L). cbn [app] in E. subst rem. exists j. auto. }
+  unfold lang in Hlang. apply derives_single in Hlang as (p & Hin & Hl & Hd).
+  destruct (prod_of_grammar p Hin) as (q0 & pr0 & Hq0 & Epr0).
+  assert (Hl0 : p_lhs pr0 = tb_start tb) by (rewrite <- Epr0 in Hl; exact Hl).
+  assert (Hr0 : rev (p_rev pr0) = rhs p) by (rewrite <- Epr0; reflexivity).
+  destruct (ok_start tb Hok) as (d & Ed).
+  pose proof (dfa_at_ok tb Hok _ _ Ed) as Hdok.
+  destruct (Hla [] (tb_start tb) [] d q0 pr0 toks (lsf_start g) Ed Hq0 Hl0) as (q & prq & Hev & Hq & Eprq).
+  { rewrite Hr0, app_nil_r. exact Hd. }
+  { exact Hnz. }
+  assert (Hrq : rev (p_rev prq) = rhs p) by (rewrite <- Hr0; inversion Eprq; reflexivity).
+  assert (Hlq : p_lhs prq = tb_start tb) by (rewrite <- Hl0; inversion Eprq; reflexivity).
+  pose proof (predict_exact _ d s0 _ q Hdok Hat0 Hev) as Hpred.
+  pose proof (prod_at_ok tb Hok _ _ Hq) as Hpo. unfold production_ok in Hpo.
+  apply andb_prop in Hpo as [Hpo _]. apply andb_prop in Hpo as [_ Hnn].
+  assert (Hinit : exists c1, ll_init orc tb opts s0 = Continue c1 /\
+                    c_stack c1 = map item_of (rhs p) ++ [PE q] /\ c_errs c1 = [] /\ c_stream c1 = s0).
+  { unfold ll_init. rewrite Ed, Hpred. unfold push_production. rewrite Hq, Hnn, Hmax. cbn [negb].
+    eexists. split; [reflexivity|]. cbn [c_stack c_errs c_stream set_stream].
+    rewrite push_items_spec, <- map_rev, Hrq. auto. }
+  destruct Hinit as (c1 & Hinit & Hst1 & He1 & Hs1). rewrite Hinit.
+  assert (HI1 : Inv tb opts toks c1) by (eapply init_inv; [exact Hok|exact Hs0|exact Hinit]).
+  destruct (run_derivation (rhs p) toks Hd c1 [PE q] [] [] q HI1 He1 Hst1) as (n & c2 & Hloop & HI2 & He2 & Hst2 & Hs2 & _).
+  - left. reflexivity.
+  - rewrite Hs1, app_nil_r. exact Hat0.
+  - rewrite app_nil_r. exact Hnz.
+  - cbn [flat flat_map app]. eapply lsf_NT; [apply lsf_start|exact Hin|exact Hl].
+  - constructor.
+  - destruct (Inv_top _ c2 HI2 Hst2) as (c3 & Hstep3 & Hst3 & He3 & Hs3).
+    exists (n + 2). eexists. eexists. rewrite Hloop. cbn [ll_loop]. rewrite Hst2. cbn [input_accepted].
+    rewrite Hstep3, Hst3. cbn [input_accepted]. unfold ll_finish. rewrite He3, He2.
+    rewrite Hs3, (stream_at_nil_consumed _ Hs2). reflexivity.
+Qed.
+
+End Complete.
+
+(** C01, completeness half: every sentence is accepted (no maximal depth set), with recovery on
+    or off, for every oracle. *)
+Theorem ll_complete_any_oracle : forall orc tb opts toks,
+  tables_ok tb = true -> la_exact tb -> o_max_depth opts = None ->
+  forallb significant toks = true ->
+  lang (grammar_of tb) toks ->
+  exists fuel acts evs, ll_run_with orc fuel tb opts toks = Accepted acts evs.
+Proof.
+  intros orc tb opts toks Hok Hla Hmax Hsig Hlang. apply tables_ok_split in Hok as [H1 _].
+  eapply run_with_complete; eassumption.
+Qed.
+
+Theorem ll_complete : forall tb opts toks,
+  tables_ok tb = true -> la_exact tb -> o_max_depth opts = None ->
+  forallb significant toks = true ->
+  lang (grammar_of tb) toks ->
+  exists fuel acts evs, ll_run fuel tb opts toks = Accepted acts evs.
+Proof. intros tb opts toks. apply ll_complete_any_oracle. Qed.
+
+(** The hypotheses of [ll_complete] are satisfiable: the automaton of the example grammar
+    S -> a S b | c is exact. *)
+Example ex_la_exact : la_exact ex_tables.
+Proof.
+  intros w a beta d p pr rem _ Hd Hp Hl Hder _.
+  unfold prod_at in Hp. cbn [ex_tables tb_prods] in Hp.
+  destruct (N.to_nat p) as [|[|n]] eqn:En; cbn [nth_error] in Hp.
+  - inversion Hp; subst pr. cbn [p_lhs] in Hl. subst a.
+    unfold dfa_at in Hd. cbn in Hd. inversion Hd; subst d.
+    cbn [p_rev rev app] in Hder. inversion Hder as [|t al w0 Hd'|]; subst.
+    exists 0%N. eexists. split; [|split; [reflexivity|reflexivity]].
+    change (stream_k ex_tables) with 1. cbn [app firstn]. vm_compute. reflexivity.
+  - inversion Hp; subst pr. cbn [p_lhs] in Hl. subst a.
+    unfold dfa_at in Hd. cbn in Hd. inversion Hd; subst d.
+    cbn [p_rev rev app] in Hder. inversion Hder as [|t al w0 Hd'|]; subst.
+    exists 1%N. eexists. split; [|split; [reflexivity|reflexivity]].
+    change (stream_k ex_tables) with 1. cbn [app firstn]. vm_compute. reflexivity.
+  - destruct n; discriminate.
+Qed.
+
+Example ex_complete_instance :
+  exists fuel acts evs, ll_run fuel ex_tables ex_opts_rec [5; 5; 7; 6; 6]%N = Accepted acts evs.
+Proof.
+  apply ll_complete; [vm_compute; reflexivity|exact ex_la_exact|reflexivity|reflexivity|].
+  unfold lang. cbn.
+  assert (P0 : In (mkProd 0 [T 5; NT 0; T 6]) (prods (grammar_of ex_tables))) by (cbn; auto).
+  assert (P1 : In (mkProd 0 [T 7]) (prods (grammar_of ex_tables))) by (cbn; auto).
+  assert (D1 : derives (grammar_of ex_tables) [NT 0] [7%N]).
+  { apply derives_single. exists (mkProd 0 [T 7]). repeat split; auto. repeat constructor. }
+  assert (D2 : derives (grammar_of ex_tables) [NT 0] [5; 7; 6]%N).
+  { apply derives_single. exists (mkProd 0 [T 5; NT 0; T 6]). repeat split; auto. cbn [rhs].
+    constructor. apply (derives_app _ [NT 0%N] [7%N] D1 [T 6%N] [6%N]). repeat constructor. }
+  apply derives_single. exists (mkProd 0 [T 5; NT 0; T 6]). repeat split; auto. cbn [rhs].
+  constructor. apply (derives_app _ [NT 0%N] [5; 7; 6]%N D2 [T 6%N] [6%N]). repeat constructor.
+Qed.
+
+(** Fuel: an accepted run makes one loop iteration per token, two per production application
+    except the first push, plus the final test: [length toks + 2 * length acts] suffices (and
+    one less does not).  Not proved in general; [ll_run_fuel_mono] lets a caller simply retry
+    with more fuel on [OutOfFuel]. *)
+Example ex_fuel_exact :
+  ll_run (5 + 2 * 3) ex_tables ex_opts [5; 5; 7; 6; 6]%N <> OutOfFuel /\
+  ll_run (5 + 2 * 3 - 1) ex_tables ex_opts [5; 5; 7; 6; 6]%N = OutOfFuel.
+Proof. split; vm_compute; [discriminate|reflexivity]. Qed.
+
+(** A sentence can only contain terminals of the productions, hence no EOI; so the side
+    condition [forallb significant toks] only excludes the skip-token types 1..4 and 65534. *)
+
+Print Assumptions ll_sound.
+Print Assumptions ll_sound_any_oracle.
+Print Assumptions ll_sound_no_recovery.
+Print Assumptions ll_recovery_sound_refuted.
+Print Assumptions ll_tree_ok.
+Print Assumptions ll_actions_postorder.
+Print Assumptions ll_actions_numbers.
+Print Assumptions ll_trim_events.
+Print Assumptions ll_no_panic_any_oracle.
+Print Assumptions ll_no_panic_partial.
+Print Assumptions ll_run_fuel_mono.
+Print Assumptions ll_complete.
